@@ -10,6 +10,7 @@
 package simrt
 
 import (
+	"sync/atomic"
 	"container/heap"
 	"fmt"
 	"math/rand/v2"
@@ -293,6 +294,8 @@ func (s *Sim) Run(root func()) string {
 		panic("simrt: nested simulation")
 	}
 	active = s
+	wallSim.Store(s)
+	wallProgress.Add(1)
 	g := s.newG("root", 0)
 	s.start(g, root)
 	s.cur = g
@@ -320,8 +323,22 @@ func (s *Sim) Run(root func()) string {
 		<-x.exited
 	}
 	active = nil
+	wallSim.Store(nil)
 	return reason
 }
+
+// Wall-clock watch (used by the worker binary to recognise a goroutine of the
+// system under test that spins without ever reaching a scheduling point: the
+// simulation cannot pre-empt it). Read from a real goroutine outside the simulation.
+var (
+	wallProgress atomic.Int64
+	wallSim      atomic.Pointer[Sim]
+)
+
+// WallProgress returns a counter that grows with every scheduling step of any
+// simulation of this process, and the simulation that is running now (nil if none).
+func WallProgress() (int64, *Sim) { return wallProgress.Load(), wallSim.Load() }
+
 
 func (s *Sim) newG(site string, group int) *G {
 	g := &G{id: len(s.gs), site: site, group: group, wake: make(chan struct{}, 1), exited: make(chan struct{})}
@@ -558,6 +575,7 @@ func (s *Sim) point(kind int, obj uint64) {
 	g := s.cur
 	g.ops++
 	s.steps++
+	wallProgress.Add(1)
 	if kind != KPoll {
 		s.progress++
 	}
@@ -700,6 +718,7 @@ func (s *Sim) block(kind int, obj uint64, ready func() bool) {
 	g := s.cur
 	g.ops++
 	s.steps++
+	wallProgress.Add(1)
 	if kind != KPoll {
 		s.progress++
 	}
